@@ -15,7 +15,7 @@
     The observed EvalError.CallStack must equal both; Backtrace() must list the same frames; the stack of
     the same program after Program.Write / CompiledProgram must be identical.
 """
-import json, random, re
+import json, os, random, re
 import vlib
 import c01          # the table message -> error kind established for C01 (kind_of)
 
@@ -108,8 +108,12 @@ class Gen:
         return self.pick(LINE_SMALL)
 
     def sp(self, least=0):
-        """horizontal white space (allowed between any two tokens of a line)"""
-        return " " * max(least, self.ncol())
+        """horizontal white space (allowed between any two tokens of a line); a tab is one column"""
+        n = max(least, self.ncol())
+        if n and "plain" not in self.profile and self.chance(0.08):
+            self.features.add("tabs")
+            return "".join(self.pick(" \t") for _ in range(n))
+        return " " * n
 
     def gap(self, inbr, least=0):
         """white space between two tokens: inside brackets it may contain line breaks and comments"""
@@ -255,7 +259,7 @@ class Gen:
     def link(self, i, stmt_ok, indent, inbr, pre):
         """expression in frame i that reaches frame i+1"""
         j = i + 1
-        via = self.pick(["call", "call", "call", "call", "sorted", "min", "max"])
+        via = self.pick(["call"] * 10 + ["sorted", "min", "max"])
         m = self.frame(i, self.names[i], self.files[i])
         if via != "call":
             self.builtin_frame(via)
@@ -597,8 +601,13 @@ def make_case(rnd, cid):
     files = g.program(depth)
     clean, frames = {}, []
     marks = {}
+    crlf = "plain" not in prof and rnd.random() < 0.06
+    if crlf:
+        g.features.add("crlf")
     for fn, text in files.items():
         c, pos = resolve(text)
+        if crlf:
+            c = c.replace("\n", "\r\n")       # a line terminator either way: lines and columns are unchanged
         clean[fn] = c
         for k, v in pos.items():
             marks[k] = (fn, v)
@@ -744,10 +753,10 @@ def describe(case, res):
 
 
 def design_check(ctx):
-    cfgs = ["C16MCLookup.cfg", "C16MCReal.cfg"] if ctx.quick else ["C16MC.cfg", "C16MCLookup.cfg", "C16MCReal.cfg", "C16MCRealWide.cfg"]
+    cfgs = ["C16MCq.cfg", "C16MCRealq.cfg"] if ctx.quick else ["C16MC.cfg", "C16MCLookup.cfg", "C16MCReal.cfg", "C16MCRealWide.cfg"]
     n = {}
     for cfg in cfgs:
-        r = ctx.tlc_ok("C16MC", cfg, workers=vlib.NCPU, timeout=2400, heap="6g")
+        r = ctx.tlc_ok("C16MC", cfg, workers=8, timeout=2400, heap="6g")
         n[cfg[:-4]] = r["states"]
         ctx.log("design check %s: %d tables, all invariants hold" % (cfg, r["states"]))
     return n
@@ -755,7 +764,8 @@ def design_check(ctx):
 
 def run(ctx):
     rnd = random.Random(ctx.seed)
-    mc = design_check(ctx)
+    # (C16_SKIP_DESIGN=1 skips the repository-independent design check: used by the sensitivity runs of tools/mutate.py only)
+    mc = design_check(ctx) if not os.environ.get("C16_SKIP_DESIGN") else {}
     nprog = 2000 if ctx.quick else 30000
     max_refsem_weight = 400
     cases, heavy_refsem = [], 0
